@@ -197,6 +197,39 @@ fn structured(fmt: &str, rng: &mut Rng, quick: bool) -> Vec<(String, Vec<u8>)> {
     v
 }
 
+/// Inputs too large to list byte by byte: a pattern repeated to n bytes (run = pattern of one byte).  Lengths sit
+/// around the size boundaries of the formats: third header byte becoming non-zero (0xFFFF..0x10001), the longest
+/// LZ11 reference (0x10110 bytes after the two leading literals of a run), and the largest input the 24-bit
+/// length field can announce (16 MiB - 1).  Patterns are chosen so that compression stays linear in n
+/// (a run for LZ10; one period of 4096 noise bytes where the LZ13 header computation would be quadratic on a run).
+fn big_inputs(fmt: &str, rng: &mut Rng) -> Vec<(String, Vec<u8>, usize)> {
+    let mut v = Vec::new();
+    for n in [0xFFFF, 0x10000, 0x10001, 2 + 0x10110, 2 + 0x10111, 70_000, 0x20000, 140_000] {
+        v.push(("bigrun".to_string(), vec![b'z'], n));
+    }
+    for p in [3usize, 17] {
+        let pat = rng.bytes(p);
+        for n in [70_000, p + 2 + 0x10111] {
+            v.push((format!("bigper{}", p), pat.clone(), n));
+        }
+    }
+    let pat = rng.bytes(4096);
+    for n in [0x10000, 0x10001, 140_000] {
+        v.push(("bigper4096".to_string(), pat.clone(), n));
+    }
+    if fmt == "lz13" {
+        for n in [0xFFFFFE, 0xFFFFFF] {
+            v.push(("bigper4096".to_string(), pat.clone(), n));
+        }
+    }
+    if fmt == "lz10" {
+        for n in [0xFFFFFE, 0xFFFFFF] {
+            v.push(("bigrun".to_string(), vec![0u8], n));
+        }
+    }
+    v
+}
+
 fn cmd_inputs(fmt: &str, path: &str) {
     let quick = tier_is_quick();
     let mut rng = Rng::new(seed_from_env() ^ if fmt == "lz10" { 0x10 } else { 0x13 });
@@ -208,6 +241,9 @@ fn cmd_inputs(fmt: &str, path: &str) {
     for (tag, input) in v {
         w.put(&json!({"fmt": fmt, "tag": tag, "input": bytes_to_json(&input)}));
     }
+    for (tag, pat, n) in big_inputs(fmt, &mut rng) {
+        w.put(&json!({"fmt": fmt, "tag": tag, "pat": bytes_to_json(&pat), "n": n}));
+    }
     w.finish();
 }
 
@@ -216,6 +252,22 @@ fn cmd_comp(cases_path: &str, out_path: &str, from: usize) {
     let cases = read_ndjson(cases_path);
     run_isolated(&cases, from, out_path, |_, c| {
         let fmt = c["fmt"].as_str().unwrap();
+        if c.get("pat").is_some() {
+            // input given by its generator: the event carries (pat, n), the whole stream, and whether mila's own
+            // decompression of it returned the input (compared here: the input is not listed)
+            let pat = json_to_bytes(&c["pat"]);
+            let input = periodic(&pat, c["n"].as_u64().unwrap() as usize);
+            let r = compress(fmt, &input);
+            let rt = match &r {
+                Ok(Ok(s)) => match decompress(fmt, s) {
+                    Ok(Ok(x)) => json!({"kind": "ok", "same": x == input, "len": x.len(), "msg": ""}),
+                    Ok(Err(e)) => json!({"kind": "err", "same": false, "len": 0, "msg": e}),
+                    Err(p) => json!({"kind": "panic", "same": false, "len": 0, "msg": p}),
+                },
+                _ => json!({"kind": "none", "same": false, "len": 0, "msg": ""}),
+            };
+            return json!({"kind": "bigcomp", "fmt": fmt, "tag": c["tag"], "pat": c["pat"], "n": c["n"], "res": res_json(r), "rt": rt});
+        }
         let input = json_to_bytes(&c["input"]);
         let r = compress(fmt, &input);
         let rt = match &r {
